@@ -403,7 +403,8 @@ func seqCorpus() [][]Step {
 		b.add(Step{Op: opTracer, Same: 2, Via: 1}) // after installation
 		b.add(Step{Op: opInstallT, Prov: 1})
 		b.add(Step{Op: opSelf, Arg: 0})
-		b.add(Step{Op: opProp})
+		b.add(Step{Op: opProp, Arg: v & 1}) // odd variants: a propagator / carrier that consults the placeholder again
+		b.add(Step{Op: opProp, Arg: 1 - v&1})
 		out = append(out, b.finish())
 	}
 	// a meter identity requested twice: instruments through both handles
@@ -548,7 +549,11 @@ func randomProgram(r *vgen.Rand) []Step {
 			}
 		case 19:
 			if r.Chance(1, 3) {
-				b.add(Step{Op: opProp})
+				arg := 0
+				if r.Chance(1, 4) {
+					arg = 1
+				}
+				b.add(Step{Op: opProp, Arg: arg})
 			}
 		}
 	}
